@@ -212,3 +212,161 @@ Print Assumptions C16_sequence.
 Print Assumptions C16_blur_rev.
 Print Assumptions C16_vector_length_bound.
 Print Assumptions C16_blur_cover.
+
+(* ==================================================================================================================================
+   APPENDED (2): THE SEEDING STAGE, EXECUTABLE (model/FindPeaks.v, model/Seeding.v, model/SeqFast.v;
+   proofs/FindPeaksProofs1-5.v, SeqFastProofs.v, SeedingProofs1-2.v; correspondence: harness/seeding.py streams find_peaks_unit,
+   float_borders, seeding of this property)
+
+   scipy.signal.find_peaks as COMA calls it (local maxima with plateaus -> height -> distance -> prominence; widths are computed by the
+   code but select nothing and are not modelled), CorrelationResult.createPeaks, PeaksSelector.selectPeaks (exact order of
+   height - sqrt(mean square), decided algebraically), InitialAlignment.refine and the coordinator's loop over references and strands
+   are now a Gallina program: Seeding.seeds_model : Coordinator.seeding.  Generic statements are about an arbitrary sample type with a
+   total preorder `leb` (instances: Z.leb for the integer secondary correlation, qleb = Qle_bool for the rational primary one).
+
+     C16_local_maxima          the indices _local_maxima_1d returns are exactly the midpoints (l+r)//2 of the plateaus x[l..r] that lie
+                               strictly inside the array and whose two neighbours are strictly lower (C16_is_peak spells the predicate out)
+     C16_local_maxima_inside   hence never the first or last sample, height = x[index], ascending positions (C16_peaks_ascending)
+     C16_peak_conditions       height / distance / prominence conditions only remove peaks, keeping the order
+     C16_distance_condition    _select_by_peak_distance, for EVERY argsort numpy may return (valid_argsort: a permutation of the peak numbers
+                               along which the heights do not decrease): kept peaks are at least `distance` apart, and every removed peak is
+                               closer than `distance` to a kept peak of at least its own height; C16_distance_condition_stable: the
+                               instance used by the model (stable argsort; C16_argsort_valid).  Which of two EQUAL peaks closer than the
+                               distance survives is NOT specified by numpy (C16_ex_distance_tie shows two valid argsorts with different
+                               survivors): the harness compares such cases with the recorded numpy order only.
+     C16_fast_sequences        the faster vector / correlation functions used for evaluation are equal to the modelled ones
+     C16_mean_square           the noise level under the square root is exactly np.mean(array[array != 0] ** 2) (the grouping by denominators in
+                               the model is only an evaluation strategy); C16_score_same_correlation: peaks of one correlation are ranked by
+                               height (the first shortcut of score_leb is the plain algebraic test le_sqrt)
+     C16_seeds_model_ok        every seed of seeds_model is on a reference map that was given (RunProofs2.seeds_ok), and there are at most
+                               peaksCount of them (C16_seeds_at_most_peaksCount): all run-level theorems proved for an arbitrary seeding
+                               function instantiate for Seeding.program_run_full (C07_run_full_total in C07.v is the example).
+   The planted-copy theorems on top of these are in C06.v (C06_true_lag_yields_seed and its variants). *)
+From Coq Require Import QArith.
+Require Import Correlate SeqFast FindPeaks Seeding Pairing Core Multi Coordinator DPProofs ResolverProofs1
+  FindPeaksProofs1 FindPeaksProofs2 FindPeaksProofs3 FindPeaksProofs4 SeqFastProofs SeedingProofs1 SeedingProofs3 RunProofs2.
+Open Scope Z_scope.
+
+Theorem C16_is_peak {A} (leb : A -> A -> bool) (d : A) x l r :
+  is_peak leb d x l r <->
+  (1 <= l /\ l <= r /\ r + 1 < length x)%nat /\
+  (forall k, (l <= k <= r)%nat -> eqb leb (nth k x d) (nth l x d) = true) /\
+  ltb leb (nth (l - 1) x d) (nth l x d) = true /\ ltb leb (nth (r + 1) x d) (nth l x d) = true.
+Proof. unfold is_peak. tauto. Qed.
+Theorem C16_local_maxima {A} (leb : A -> A -> bool) (d : A) x m v :
+  (forall a b, leb a b = true \/ leb b a = true) -> (forall a b c, leb a b = true -> leb b c = true -> leb a c = true) ->
+  (In (m, v) (local_maxima leb x) <-> exists l r, is_peak leb d x l r /\ m = Nat.div2 (l + r) /\ v = nth m x d).
+Proof. exact (fun Ht Htr => local_maxima_spec leb Ht Htr d x m v). Qed.
+Theorem C16_local_maxima_inside {A} (leb : A -> A -> bool) (d : A) x m v :
+  (forall a b, leb a b = true \/ leb b a = true) -> (forall a b c, leb a b = true -> leb b c = true -> leb a c = true) ->
+  In (m, v) (local_maxima leb x) ->
+  (1 <= m)%nat /\ (m + 1 < length x)%nat /\ v = nth m x d /\ exists l r, is_peak leb d x l r /\ (l <= m <= r)%nat.
+Proof. exact (fun Ht Htr => local_maxima_inside leb Ht Htr d x m v). Qed.
+Theorem C16_peaks_ascending {A} (leb : A -> A -> bool) hok d pok x :
+  StronglySorted (fun a b : nat * A => (fst a < fst b)%nat) (find_peaks_ord leb hok d pok x).
+Proof. exact (find_peaks_ord_sorted leb hok d pok x). Qed.
+Theorem C16_peak_conditions {A} (leb : A -> A -> bool) hok d pok x hf pf (peaks : list (nat * A)) p :
+  Sub (find_peaks_ord leb hok d pok x) (local_maxima leb x) /\
+  (In p (select_height hf peaks) <-> In p peaks /\ hf (snd p) = true) /\
+  (In p (select_prominence leb pf x peaks) <-> In p peaks /\ pf (snd p) (prom_base leb x (fst p) (snd p)) = true).
+Proof. exact (conj (find_peaks_ord_sub leb hok d pok x) (conj (select_height_in hf peaks p) (select_prominence_in leb pf x peaks p))). Qed.
+Theorem C16_distance_condition {A} (leb : A -> A -> bool) (dflt : A) ord d (peaks : list (nat * A)) :
+  StronglySorted (fun a b : nat * A => (fst a < fst b)%nat) peaks ->
+  valid_argsort leb (map fst peaks) (fun j => nth j (map snd peaks) dflt) ord ->
+  let kept := select_distance_ord ord d peaks in
+  Sub kept peaks /\
+  (forall p q, In p kept -> In q kept -> (fst p < fst q)%nat -> (d <= fst q - fst p)%nat) /\
+  (forall p, In p peaks -> ~ In p kept ->
+     exists q, In q kept /\ (fst q - fst p < d)%nat /\ (fst p - fst q < d)%nat /\ leb (snd p) (snd q) = true).
+Proof. exact (select_distance_ord_spec leb dflt ord d peaks). Qed.
+Theorem C16_argsort_valid {A} (leb : A -> A -> bool) (dflt : A) (pos : list nat) (ps : list A) :
+  (forall a b, leb a b = true \/ leb b a = true) -> (forall a b c, leb a b = true -> leb b c = true -> leb a c = true) ->
+  length pos = length ps -> valid_argsort leb pos (fun j => nth j ps dflt) (argsort leb ps).
+Proof. exact (fun Ht Htr => argsort_valid leb Ht Htr dflt pos ps). Qed.
+Theorem C16_distance_condition_stable {A} (leb : A -> A -> bool) (dflt : A) d (peaks : list (nat * A)) :
+  (forall a b, leb a b = true \/ leb b a = true) -> (forall a b c, leb a b = true -> leb b c = true -> leb a c = true) ->
+  StronglySorted (fun a b : nat * A => (fst a < fst b)%nat) peaks ->
+  let kept := select_distance leb d peaks in
+  Sub kept peaks /\
+  (forall p q, In p kept -> In q kept -> (fst p < fst q)%nat -> (d <= fst q - fst p)%nat) /\
+  (forall p, In p peaks -> ~ In p kept ->
+     exists q, In q kept /\ (fst q - fst p < d)%nat /\ (fst p - fst q < d)%nat /\ leb (snd p) (snd q) = true).
+Proof. exact (fun Ht Htr => select_distance_spec leb Ht Htr dflt d peaks). Qed.
+Theorem C16_valid_argsort {A} (leb : A -> A -> bool) pos prio ord :
+  valid_argsort leb pos prio ord <->
+  Permutation ord (seq 0 (length pos)) /\ StronglySorted (fun a b : nat => leb (prio a) (prio b) = true) ord.
+Proof. unfold valid_argsort. tauto. Qed.
+Theorem C16_qleb x y : qleb x y = Qle_bool x y.
+Proof. exact (qleb_spec x y). Qed.
+Theorem C16_fast_sequences ps res r rv start stop qlen qps rlen rps peak margin :
+  get_sequence_py_f ps res r rv start stop = get_sequence_py ps res r rv start stop /\
+  initial_correlation_f qlen qps rlen rps res r rv = initial_correlation qlen qps rlen rps res r rv /\
+  refine_correlation_f qlen qps rps rv peak res r margin = refine_correlation qlen qps rps rv peak res r margin.
+Proof. exact (conj (get_sequence_py_f_eq ps res r rv start stop) (conj (initial_correlation_f_eq qlen qps rlen rps res r rv)
+               (refine_correlation_f_eq qlen qps rps rv peak res r margin))). Qed.
+(* the noise level: mean_square is exactly np.mean(array[array != 0] ** 2); peaks of one correlation are ranked by height *)
+Theorem C16_mean_square c : let nz := filter (fun v => negb (Qeq_bool v 0)) c in
+  (mean_square c == fold_right (fun v a => v * v + a) 0 nz / inject_Z (Z.of_nat (length nz)))%Q.
+Proof. exact (SeedingProofs3.mean_square_spec c). Qed.
+Theorem C16_score_same_correlation a b : (0 <= pp_noise2 a)%Q -> pp_noise2 a = pp_noise2 b ->
+  score_leb a b = score_leb_spec a b /\ score_leb a b = Qle_bool (pp_height a) (pp_height b).
+Proof. exact (SeedingProofs3.score_leb_same_correlation a b). Qed.
+Theorem C16_seeds_at_most_peaksCount sp refs q sds : seeds_res sp refs q = Ok sds ->
+  (length sds <= pcount sp)%nat /\ forall sd, In sd sds -> In (sd_ref sd) refs.
+Proof. exact (seeds_res_spec sp refs q sds). Qed.
+Theorem C16_seeds_model_ok sp refs : seeds_ok refs (seeds_model sp).
+Proof. exact (seeds_model_ok sp refs). Qed.
+
+(* ---------- non-vacuity ---------- *)
+(* plateaus: [3;3;3] at 1..3 -> midpoint 2; [5;5] at 5..6 -> midpoint (5+6)//2 = 5; the plateau [4;4] touches the right edge: no peak *)
+Example C16_ex_local_maxima :
+  local_maxima Z.leb [1;3;3;3;2;5;5;1;4;4] = [(2%nat, 3); (5%nat, 5)] /\ is_peak Z.leb 0 [1;3;3;3;2;5;5;1;4;4] 1 3 /\
+  local_maxima Z.leb [0;2;2;1;2;2;2;2;0;3;0;2;3] = [(1%nat, 2); (5%nat, 2); (9%nat, 3)].
+Proof. split; [vm_compute; reflexivity|]. split; [|vm_compute; reflexivity]. unfold is_peak. cbn [length]. repeat split; try lia.
+  intros k Hk. assert (k = 1 \/ k = 2 \/ k = 3)%nat as [->|[->| ->]] by lia; reflexivity. Qed.
+(* two peaks of equal height 5 at 1 and 3 (and 6 at 8 and 10), distance 3: numpy's argsort may list the equal ones in either order;
+   the stable order keeps 3 and 10, another valid argsort keeps 1 and 10 *)
+Example C16_ex_distance_tie :
+  let x := [0;5;0;5;5;0;4;0;6;1;6;0] in let pk := local_maxima Z.leb x in
+  pk = [(1%nat, 5); (3%nat, 5); (6%nat, 4); (8%nat, 6); (10%nat, 6)] /\
+  argsort Z.leb (map snd pk) = [2; 0; 1; 3; 4]%nat /\
+  select_distance Z.leb 3 pk = [(3%nat, 5); (6%nat, 4); (10%nat, 6)] /\
+  valid_argsort Z.leb (map fst pk) (fun j => nth j (map snd pk) 0) [2; 1; 0; 3; 4]%nat /\
+  select_distance_ord [2; 1; 0; 3; 4]%nat 3 pk = [(1%nat, 5); (6%nat, 4); (10%nat, 6)].
+Proof. cbv zeta. split; [vm_compute; reflexivity|]. split; [vm_compute; reflexivity|]. split; [vm_compute; reflexivity|]. split; [|vm_compute; reflexivity].
+  split.
+  - vm_compute. apply (perm_trans (l' := [1; 2; 0; 3; 4]%nat)); [apply perm_swap|]. apply (perm_trans (l' := [1; 0; 2; 3; 4]%nat)); [apply perm_skip, perm_swap | apply perm_swap].
+  - repeat constructor. Qed.
+(* the two calls of COMA: refine (integers; height >= 27, prominence >= 0.05 * 40 = 2) and the primary call (height >= 0.75 * 1, distance 2) *)
+Example C16_ex_find_peaks :
+  find_peaks_refine [0;30;0;29;40;40;12;39;0;28;27;0] (27 # 1) = [(1%nat, 30); (4%nat, 40); (7%nat, 39); (9%nat, 28)] /\
+  find_peaks_initial [0#1; 1#2; 0#1; 3#4; 1#3; 1#1; 1#1; 2#4; 4#5; 0#1]%Q 2 = [(3%nat, 3 # 4); (5%nat, 1); (8%nat, 4 # 5)]%Q.
+Proof. vm_compute. split; reflexivity. Qed.
+(* the whole seeding stage on a small map (unit: tenths of a bp; primary resolution 10 bp, blur 1, minPeakDistance 20 bp, peaksCount 3,
+   secondary resolution 5 bp, blur 1, margin 40 bp, peakHeightThreshold 2): the query is the copy of reference labels 2..5;
+   the first seed is the forward one at bin 7 (70 bp = the true diagonal 700/10), refined to 71 and 101 bp *)
+Example C16_ex_seeds :
+  let R := mkMap 1 4000 [0; 700; 1000; 1600; 2000; 2300; 3100; 3500] 0 in
+  let q := mkMap 7 1310 [0; 300; 900; 1300] 0 in
+  let sp := mkSP 10 1 20 3 5 1 40 (2 # 1) in
+  match all_primary sp [R] q with Ok l => map (fun p => (pp_rev p, pp_pos p)) l = [(false, 74); (true, 64); (true, 104); (true, 194)] | Err => False end /\
+  match seeds_res sp [R] q with
+  | Ok l => map (fun s => (mid (sd_ref s), sd_rev s, sd_peaks s)) l = [(1, false, [710; 1010]); (1, true, [310; 610; 1010]); (1, true, [1610; 1910])]
+  | Err => False end.
+Proof. vm_compute. split; reflexivity. Qed.
+
+Print Assumptions C16_is_peak.
+Print Assumptions C16_local_maxima.
+Print Assumptions C16_local_maxima_inside.
+Print Assumptions C16_peaks_ascending.
+Print Assumptions C16_peak_conditions.
+Print Assumptions C16_distance_condition.
+Print Assumptions C16_argsort_valid.
+Print Assumptions C16_distance_condition_stable.
+Print Assumptions C16_valid_argsort.
+Print Assumptions C16_qleb.
+Print Assumptions C16_fast_sequences.
+Print Assumptions C16_mean_square.
+Print Assumptions C16_score_same_correlation.
+Print Assumptions C16_seeds_at_most_peaksCount.
+Print Assumptions C16_seeds_model_ok.
